@@ -16,7 +16,8 @@ func init() {
 		Explanation: "Decides: R1 gating and order — the only call of the generated-code predicate is control dependent on opts.SkipGenerated being true; when it returns true nothing but a log line precedes the next file (no apply, format, diff, print, description or write); the call dominates (*patchRunner).Apply and every output event; when the flag is false or the predicate false the pipeline continues to Apply; " +
 			"R2 predicate — checkGeneratedCode returns true exactly under ast.IsGenerated(f) or when some comment of f.Doc (the package comment, not f.Comments) contains the constant \"@generated\" (strings.Contains), and false otherwise, including f.Doc == nil; " +
 			"R3 precondition of ast.IsGenerated — the parser.ParseFile mode used for targets has the ParseComments bit, without which the marker is invisible. " +
-			"NOT decided: ast.IsGenerated's own regular expression (standard library, matches the statement's wording).",
+			"NOT decided: ast.IsGenerated's own regular expression (standard library, matches the statement's wording)." +
+			" R5 a skipped file leaves nothing behind (cross-file state).",
 		Trusted:     append([]string{"go/ast.IsGenerated implements the '// Code generated ... DO NOT EDIT.' convention for comments before the package clause"}, commonTrusted...),
 		Assumptions: commonAssumptions,
 	})
